@@ -26,7 +26,8 @@ CLAIMED["C04"] = {
             "layout programs (Layout.tla: one lambda body re-evaluated under different arrangements of locals - dynamic declarations via "
             "eval(), free vs attribute call, captures, parameters, shadowed globals) with their by-name outputs; every case is replayed "
             "into the real engine with hints enabled and disabled and both must equal the reference; a sample of runs is traced and TLC "
-            "checks every recorded get_object resolution against by-name resolution in the reconstructed stack.",
+            "checks every recorded get_object resolution against by-name resolution in the reconstructed stack."
+            " A third family (tiers) covers the function tier: names that are functions from the start and globals of the same name created between two calls of the same body.",
     "note": "Reference = by-name lookup written in TLA+ (no cache concept); trusted: the printer in gen/checks/c04.py and hook H2's "
             "hint-ignoring switch (itself compared with the reference). Exhaustive over the 62,720-case small family in the thorough tier "
             "(a seeded third in quick) plus seeded random three-call cases.",
@@ -39,7 +40,8 @@ CLAIMED["C12"] = {
             "function to a result or 'throws'); TLC explores the state graphs (values {1,2}, length <= 3 quick / 4 thorough, index classes "
             "{-1,0,size-1,size,size+1,huge}) checking WithinModel/Total, and exports one record per transition; every transition is "
             "replayed as its own test through the script API in an ASan/UBSan build (result or exception, and full contents afterwards), "
-            "followed by seeded walks of 3-10 operations through the same graph.",
+            "followed by seeded walks of 3-10 operations through the same graph."
+            " Index arguments of [] also arrive as size_t, long and unsigned int (idx_t transitions).",
     "note": "Reads/writes outside the container are observed by ASan on the replayed cases (TLC decides the abstract bounds only); "
             "range views are exercised only while their container is not structurally modified (excluded by the property).",
     "technique": "TLA+ state graph (TLC) with one implementation test per transition, replayed under ASan",
@@ -54,7 +56,8 @@ CLAIMED["C15"] = {
             "histories inside the bound, and the in-place variant must fail. As executable reference TLC then enumerates histories (all of "
             "length 3 over 17 operations, seeded random ones of length 8) with the visible environment expected after every step; each is "
             "replayed into the real engine and probed through plain calls, member calls, get_functions(), globals, type names, a class and "
-            "a top-level local after every step.",
+            "a top-level local after every step."
+            " The probes include persistent call sites (parsed before any snapshot, run again after every step) and a diverged-timelines family that is deliberately not probed right after set_state (a probe there would heal a stale lookup hint).",
     "note": "Globals are modelled as the code shares them: a snapshot holds the binding name -> object, so a later assignment to an "
             "existing global is visible through the snapshot (spec correction, see DESIGN.md); modules (load_module) are not exercised.",
     "technique": "TLA+ model checking (TLC) + TLC-generated histories replayed step by step into the implementation",
@@ -83,7 +86,8 @@ CLAIMED["C10"] = {
             "transcription of Try_AST_Node (C++ catch arms fixing the static type, clause loop, finally placement); TLC checks that the "
             "transcription refines the reference on all 15,870 programs of the family and refutes each of the three pinned behaviours; the "
             "same programs with the reference's marker trace and escaping kind are replayed into the real engine with the throw site "
-            "rotated over seven frame kinds (direct, function, lambda, method, bind, for_each callback, attribute-held function).",
+            "rotated over seven frame kinds (direct, function, lambda, method, bind, for_each callback, attribute-held function)."
+            " Thrown kinds: six C++ exceptions thrown by registered functions (also behind the arithmetic-conversion route of dispatch), six script values (int, string, runtime_error value, a registered base/derived pair, a script class instance).",
     "note": "Known finding (known_findings.json): non-std C++ exception types are invisible to script clauses. Guarded clauses and "
             "exception_specification handlers are outside the family; thrown kinds: int, string, runtime_error, out_of_range, logic_error, "
             "bad_cast, eval_error, a non-std struct.",
@@ -110,7 +114,8 @@ CLAIMED["C17"] = {
             "checks that the range-cursor loop models of take/drop/zip_with refine the definitions and that the algebraic laws hold for every "
             "vector inside the bound, then exports all cases (25 functions x vectors of length <= 3 (4 thorough) over {-1,0,1,2} x callback "
             "menu x numeric argument classes {-1,0,1,size,size+1}; scalars -5..5) with expected result, callback trace and unchanged "
-            "inputs; every case is replayed through the real prelude.",
+            "inputs; every case is replayed through the real prelude."
+            " Also covered: strings as containers (ltrim/rtrim/trim with TrimLaws, take/drop/filter/take_while/drop_while/reverse/concat over strings), retro, find, collate, new, and join/to_string over vectors of strings (JoinLaws).",
     "note": "Covered: for_each map filter foldl reduce sum product any_of all_of contains take take_while drop drop_while concat zip "
             "zip_with reverse join to_string generate_range min max even odd. Not yet in the family: string/map inputs, retro, find, trim.",
     "technique": "TLA+ functional specification (TLC checks loop refinement and laws) + exhaustive replay of TLC-exported cases",
@@ -137,9 +142,11 @@ CLAIMED["C14"] = {
             "engine exactly what was declared there) over all histories of <= 6 (8 thorough) operations on 3 engine ids x 2 addresses x 3 "
             "threads, and refutes keying by address. Seeded histories with expectations computed by TLC are replayed by a director that "
             "placement-constructs engines in a fixed arena (so 'same address' is controlled) and runs operations on the main thread and "
-            "two long-lived workers; after every step every (live engine, thread, name) and a per-engine function are probed.",
+            "two long-lived workers; after every step every (live engine, thread, name) and a per-engine function are probed."
+            " Engines are created by workers as well as by main (the create operation carries its thread; keying by a per-thread creation count is a second refuted regression), and user conversions are registered per engine (conv / useconv operations, invariant ConvIsolated; a convertible-type cache shared by all engines of a thread is a third refuted regression).",
     "note": "Types, conversions and used-file records are per-engine members and are not probed separately; address reuse is produced "
-            "with placement new only (the stack/heap variants reduce to it).",
+            "with placement new only (the stack/heap variants reduce to it)."
+            " User conversions are now probed; types and used-file records are not probed separately.",
     "technique": "TLA+ model checking (TLC) + replay of TLC-computed expectations by a multi-threaded director at controlled addresses",
     "design": "5 C14",
 }
@@ -200,7 +207,8 @@ CLAIMED["C03"] = {
             "attributes, constructors, methods; vectors and maps. A seeded grammar-directed generator draws programs as data; TLC "
             "evaluates every program with the reference (output lines, final value, error class, and the reference's own scope "
             "balance) and the driver runs the same program in the real engine with the optimizing and the unoptimized parser; all "
-            "three must agree.",
+            "three must agree."
+            " The generator now also draws try / catch (typed and untyped) / finally / throw with engine errors and control flow leaving through handlers, several overlapping guarded overloads per name, operands with visible effects under && || ?:, and string interpolation; a fixed program pins the repaired return-value-flag defect.",
     "note": "Sampling over the generator's program space (1,500 programs quick / 20,000 thorough per seed), not exhaustive; programs whose "
             "integers grow beyond +-30000 or that exhaust the reference's loop fuel are dropped; string ordering, floats, try/catch "
             "(C10), size_t arithmetic and modification of a container during iteration (C12 exclusion) are not generated; trusted: the "
